@@ -1,6 +1,9 @@
 from .. import deductive
 from . import normal_ded
+from ..contracts import normal as N
 
 
 def run(tier):
-    return deductive.verify_module('gmquery', nproc=1) + normal_ded.reports(('C02',))
+    rel, q, c = N.DV_ITEM
+    return deductive.verify_module('gmquery', nproc=1) + normal_ded.reports(('C02',)) + \
+        [deductive.verify_function(rel, q, c, hooks=N.DataVectorHooks(), module_env={})]
